@@ -18,7 +18,8 @@ import CalVerif.Prim.Res
       the few decisions the Rust code takes on *decoded* text (`is_empty`, `rsplit('#')`, `strip_prefix("*\\C")`)
       are taken on the bytes, which is the same for every code page in which `#`, `*`, `\`, `C` are the single
       bytes 0x23/0x2A/0x5C/0x43 and never part of a multi-byte sequence (all Windows/ISO single-byte pages,
-      932, 936, 949, 950, 65001; not UTF-16 and ISO-2022) and for names that are not a bare byte-order mark.
+      932, 936, 949, 950, 65001; not UTF-16 and ISO-2022); `decode_all` strips a leading BOM of the code page's own
+      encoding only (after the `decode_all` fix), so for 65001 a name that is exactly EF BB BF is outside the model.
     Every Rust operation that can panic is an explicit `panic` here (ledger D34 lists them). -/
 
 namespace Ovba
